@@ -35,7 +35,7 @@ PROPS = {
                  "are checked after every call; histories with rejected calls are re-run without them and the outputs compared byte for byte. "
                  "Strata: bounded-exhaustive (1-2 tracks, 54-symbol alphabet size{0,1,2} x delta{0,1,timescale} x cts{0,5,-5} x sync, all "
                  "histories of length <= 2 quick / <= 3 thorough) and seeded random (1-5 tracks of all five media kinds, 0-400 samples, "
-                 "biased sizes/durations/offsets/timescales, four interleavings, lazily added tracks, parameter sets partly in Annex B form, rejected write_sample AND rejected add_track calls interleaved). A case is non-trivial when some track "
+                 "biased sizes/durations/offsets/timescales, four interleavings, lazily added tracks, codec-shaped sample payloads (ADTS headers, start codes, length prefixes), parameter sets partly in Annex B form, rejected write_sample AND rejected add_track calls interleaved). A case is non-trivial when some track "
                  "has >= 2 samples; distinct = distinct abstract shape (per track: media kind, sample-count bucket, #distinct sizes, #zero "
                  "sizes, position of first non-zero offset, first sync / sync class, #chunk flushes, trailing partial chunk; #rejected calls)."),
         "assumptions": [
@@ -83,8 +83,10 @@ PROPS = {
                  "weird language strings, parameter-set lengths 0..3 and >= 65535, all durations u32::MAX, extreme offsets, a 16 MiB+ sample, "
                  "write_end twice, writes/add_track after write_end, no tracks, unknown track ids, missing write_end, dimension extremes) plus "
                  "directed boundary histories; every call runs under a panic monitor in both build profiles; when every call returned Ok and the "
-                 "history ends with write_end the C01 and C02 oracles are applied to the calls the muxer accepted. distinct_nontrivial = distinct "
-                 "(degenerate class, call kind, outcome) triples observed."),
+                 "history ends with write_end the C01 and C02 oracles are applied to the calls the muxer accepted (add_track calls whose preconditions "
+                 "are violated on purpose must fail and leave no trace). One history in three is executed once more on a sink that fails once; the "
+                 "remaining calls are made regardless and none may panic. distinct_nontrivial = distinct (degenerate class, call kind, outcome) "
+                 "triples observed."),
         "assumptions": [
             "samples >= 4 GiB (length truncated to u32) are not exercised: a single 4 GiB buffer per case is outside the run budget (DESIGN 7, F35)",
             "the C14 oracle is not applied to degenerate configurations (it is stated for the documented domain only)",
@@ -138,10 +140,10 @@ PROPS = {
         "death_is_violation": True,
         "min_evals": {"quick": 250000, "thorough": 3000000},
         "rule": ("fragmented movies are synthesised by the reference encoder: 1-6 fragments, 1-3 tracks, 1-3 track fragments per movie fragment "
-                 "(also two of the same track), 0-40 samples per run (every 4000th movie: up to 1500), track fragments without any run box, 64-bit headers on boxes inside moof (one movie in six), base-data-offset explicit / default-base-is-moof / neither, tfhd default duration "
+                 "(also two of the same track), 0-40 samples per run (every 4000th movie: up to 1500), track fragments without any run box, 64-bit headers on boxes inside moof (one movie in six), hybrid movies whose movie box lists samples of its own (one in nine), base-data-offset explicit / default-base-is-moof / neither, tfhd default duration "
                  "or not, per-sample durations or not, composition offsets or not, tfdt v0/v1 (values beyond 2^32), data_offset absent / positive / "
                  "negative, trex defaults, optional styp/mehd; exhaustive over the 3 x 2^6 flag lattice for 1-2 fragments x 0-2 samples. Each movie is "
-                 "read both as one stream and as init segment + media segment (read_fragment_header) and every sample's offset, bytes, start time, "
+                 "read as one stream, as init segment + media segment (read_fragment_header), and with the media segment as a byte range at a non-zero position of a larger buffer, and every sample's offset, bytes, start time, "
                  "duration and composition offset is compared with the model. distinct = distinct run shapes (fragment index class, base mode, the "
                  "five flags, offset sign, run-length class, trex default present); non-trivial = run with >= 2 samples or in a later fragment."),
         "assumptions": [
@@ -301,11 +303,11 @@ PROPS = {
                  "4 kB and every 97th byte in between in the quick tier, all bytes in thorough). The prefix is opened with its own length under a stream "
                  "op budget; if it opens, every sample that the complete file yields is read: the result must be an error or absence, or equal in bytes, "
                  "start time, duration and composition offset to the complete file's sample (the library's own answer on the complete file is the "
-                 "reference). Panic, budget overrun (hang) or a differing Ok(Some) is a violation. On an opened prefix the tracks are drained one after the other on ONE reader, so "
+                 "reference). Panic, budget overrun (hang), a differing Ok(Some), or an existing sample reported as absent without an error is a violation. On an opened prefix the tracks are drained one after the other on ONE reader, so "
                  "failing reads are followed by reads that must still succeed; every other generated plain movie has the children of every stbl permuted. distinct_nontrivial = distinct (file or generated kind, outcome class, "
                  "eighth of the file the cut lies in) with the prefix opened: all samples equal / some equal some failing / none readable."),
         "assumptions": [
-            "sample counts may shrink (fewer complete fragments): a missing sample (Ok(None)) or an error is accepted, only wrong data is not",
+            "a prefix may hold fewer complete fragments: reading a sample that is gone must then FAIL WITH AN ERROR (the letter of the statement); Ok(None) for a sample of the complete file is a violation",
             "sync flags are not part of 'bytes and timing' (and depend on the fragment count for fragmented tracks) - DESIGN 8.3",
         ],
     },
@@ -318,7 +320,7 @@ PROPS = {
         "min_evals": {"quick": 1200000, "thorough": 18000000},
         "rule": ("for each explored reader subject (the valid seed corpus plus 800 / 16 000 generated plain and fragmented movies) a fault-free run counts the K stream calls "
                  "(read / seek) of the open call (read_header, or read_fragment_header for media segments) and of each read_sample call (first 6 samples "
-                 "of every track); then the run is repeated once for EVERY k < K with a single injected error at call k. For each explored muxer history "
+                 "of every track); then the run is repeated once for EVERY k < K with a single injected error (its ErrorKind varies over eight kinds with the call and subject index) at call k. For each explored muxer history "
                  "(4000 quick / 60 000 thorough) the K write / seek calls from write_start to write_end are counted and every k < K is repeated with an "
                  "injected error and with a write that returns Ok(0). Oracle: the library call in progress returns Error::IoError - not Ok, not another "
                  "error, no panic - and earlier muxer calls returned what the fault-free run returned. Short transfers: each file is re-read with a "
